@@ -227,7 +227,7 @@ class MQPart:
     serves = ["C12", "C13", "C15", "C08"]
     weight = 3
     coq_imports = ["From ONL Require Import Base.Cmp Elem.Packet Elem.StoreQ Elem.SchedBase Elem.SP Elem.RR Elem.WRR."]
-    props_files = {"C12": ["Props/C12_MQ.v", "Props/C12_BridgeMQ.v", "Props/C12_BridgeMon.v", "Props/C12_BridgeRun.v"], "C13": ["Props/C13.v", "Props/C13_Bridge.v", "Props/C13_BridgeRun.v"], "C15": ["Props/C15_RR.v"],
+    props_files = {"C12": ["Props/C12_MQ.v", "Props/C12_BridgeMQ.v", "Props/C12_BridgeMon.v", "Props/C12_BridgeRun.v"], "C13": ["Props/C13.v", "Props/C13_Bridge.v", "Props/C13_BridgeRun.v"], "C15": ["Props/C15_RR.v", "Props/C15_BridgeRun.v", "Props/C15_BridgeRunWRR.v"],
                    "C08": ["Props/C08_MQ.v"]}
 
     # ---- second tie: regenerate the translated bodies before the Coq build (fail closed) ----------------
@@ -239,6 +239,10 @@ class MQPart:
             tr.write_if_changed(os.path.join(fw.COQ, "Gen", "Extracted_spinit.v"), extracted_spinit(fw.REPO))
             from props import sched_tie
             sched_tie.write_if_changed(fw.COQ, "Extracted_sp_run.v", sched_tie.extracted_sp_run(fw.REPO))
+        if prop_id == "C15":
+            from props import sched_tie
+            sched_tie.write_if_changed(fw.COQ, "Extracted_rr_run.v", sched_tie.extracted_rr_run(fw.REPO))
+            sched_tie.write_if_changed(fw.COQ, "Extracted_wrr_run.v", sched_tie.extracted_wrr_run(fw.REPO))
         if prop_id != "C12":
             return
         tr.write_if_changed(os.path.join(fw.COQ, "Gen", "Extracted_mq.v"), extracted_mq(fw.REPO))
@@ -289,7 +293,13 @@ class MQPart:
               "remaining table; tables in props/sched_tie.py) regenerates coq/Gen/Extracted_sp_run.v from SP.run before every build; the "
               "C13_gen_sp_run_* theorems (Props/C13_BridgeRun.v, proofs Elem/SPScanBridge.v) prove SInit / SGetDone / SChildEnd of the "
               "automaton (state component; the OVisit outputs are ghosts) equal to the generated functions, by induction over the table"]
-    trusted_base = {"C12": _tb + _tie, "C13": _tb + _tie13, "C15": _tb, "C08": _tb}
+    _tie15 = ["vlib/translate_gen.py (generator bodies cut at their yields; for-loops over a table become structural fixes over the "
+              "remaining table, carried in the frames of the program points inside the loop; tables in props/sched_tie.py) regenerates "
+              "coq/Gen/Extracted_rr_run.v / Extracted_wrr_run.v from RR.run / WRR.run before every build; the C15_gen_rr_run_* / "
+              "C15_gen_wrr_run_* theorems (Props/C15_BridgeRun.v, C15_BridgeRunWRR.v, proofs Elem/RRScanBridge.v, WRRScanBridge.v) prove "
+              "SInit / SGetDone / SChildEnd of the automaton (state component; OVisit outputs are ghosts) equal to the generated functions, "
+              "by induction over the table; `assert store` is taken as true (a Store exists for every configured flow)"]
+    trusted_base = {"C12": _tb + _tie, "C13": _tb + _tie13, "C15": _tb + _tie15, "C08": _tb}
     _as = ["workloads contain only packets of flows whose class is configured (SP: flow2class(flow) is a key of the priority "
            "table; RR/WRR: the flow is listed) with size >= 0, rate > 0 (a packet of an unconfigured class makes run() spin "
            "without yielding: outside C12's domain)",
